@@ -346,3 +346,87 @@ var specMut = pbt.Register(pbt.Spec[MutCase]{
 func checkArbitraryGuarded(data []byte) error { return checkArbitrary(data) }
 
 func TestMutatedEncodings(t *testing.T) { specMut.Check(t) }
+
+// ---- several values alive at the same time --------------------------------------------------
+
+// TogetherCase: all values are built and encoded first, then all are decoded, and only then compared.
+// A value (or its encoding, or its decoded copy) must not share state with values handled after it.
+type TogetherCase struct {
+	Vs []*ref.V `json:"vs"`
+}
+
+func encodeHeld(g value.Value) []byte {
+	o := wio.NewDataOutputX()
+	value.WriteValue(o, g)
+	return o.ToByteArray() // exactly the slice the encoder hands out
+}
+
+func runTogether(c TogetherCase) *pbt.Result {
+	n := len(c.Vs)
+	gs := make([]value.Value, n)
+	held := make([][]byte, n)
+	for i, v := range c.Vs {
+		gs[i] = gval.ToGolib(v)
+	}
+	for i := range gs {
+		held[i] = encodeHeld(gs[i])
+	}
+	ds := make([]value.Value, n)
+	for i := range gs {
+		ds[i] = value.ReadValue(wio.NewDataInputX(append([]byte(nil), held[i]...)))
+	}
+	types := map[byte]bool{}
+	for i, v := range c.Vs {
+		want := ref.ValueBytes(v)
+		if !bytes.Equal(held[i], want) {
+			return pbt.Fail("value %d of %d: the bytes WriteValue produced no longer equal the reference encoding after the other values were encoded and decoded (%d vs %d bytes)", i, n, len(held[i]), len(want))
+		}
+		if ds[i] == nil {
+			return pbt.Fail("value %d of %d: ReadValue returned nil", i, n)
+		}
+		view, err := gval.FromGolib(ds[i])
+		if err != nil {
+			return pbt.Fail("value %d of %d: decoded value is malformed: %v", i, n, err)
+		}
+		if diff := ref.DiffValue(v, view, "$"); diff != "" {
+			return pbt.Fail("value %d of %d: after all %d values were decoded, this decoded value differs from its original at %s", i, n, n, diff)
+		}
+		if orig, err := gval.FromGolib(gs[i]); err != nil || ref.DiffValue(v, orig, "$") != "" {
+			return pbt.Fail("value %d of %d: the value that was encoded has changed while the others were encoded and decoded", i, n)
+		}
+		if re := encodeHeld(ds[i]); !bytes.Equal(re, want) {
+			return pbt.Fail("value %d of %d: re-encoding the decoded value gives %d bytes, the reference has %d", i, n, len(re), len(want))
+		}
+		ref.Types(v, types)
+	}
+	var classes []string
+	for ty := range types {
+		classes = append(classes, fmt.Sprintf("type=%d", ty))
+	}
+	return &pbt.Result{NT: n >= 2, Classes: classes}
+}
+
+var specTogether = pbt.Register(pbt.Spec[TogetherCase]{
+	Prop: "C02", Name: "values-alive-together",
+	Rule:  "2-5 values (any type, depth <= 4; one time in three all of one scalar or container type) are all built, then all encoded (the byte slices are kept exactly as handed out), then all decoded, and only then compared: every kept encoding still equals the reference encoding, every decoded value and every original still equals its model, re-encoding is identical; non-trivial = every case; distinct by case",
+	Quick: 3000, Thorough: 150000,
+	Draw: func(t *rapid.T) TogetherCase {
+		n := rapid.IntRange(2, 5).Draw(t, "n")
+		o := gval.Opts{MaxDepth: 4, MaxWidth: 5, BigText: false}
+		var c TogetherCase
+		if rapid.IntRange(0, 2).Draw(t, "sametype") == 0 {
+			ty := rapid.SampledFrom(ref.AllTypes).Draw(t, "type")
+			for i := 0; i < n; i++ {
+				c.Vs = append(c.Vs, gval.DrawOfType(t, o, ty, 3, true))
+			}
+			return c
+		}
+		for i := 0; i < n; i++ {
+			c.Vs = append(c.Vs, gval.Value(o).Draw(t, "v"))
+		}
+		return c
+	},
+	Run: runTogether,
+})
+
+func TestValuesAliveTogether(t *testing.T) { specTogether.Check(t) }
